@@ -382,6 +382,38 @@ impl Record {
     }
 }
 
+/// Direct access to the reader-pin / retired-bit word for the correspondence check.
+#[cfg(feoxdb_verif)]
+impl Record {
+    /// `acquire_extent`, keeping the pin (the guard is forgotten); false = refused
+    pub fn verif_extent_acquire(&self) -> bool {
+        match self.acquire_extent() {
+            Some(guard) => {
+                mem::forget(guard);
+                true
+            }
+            None => false,
+        }
+    }
+
+    /// drop one pin taken by `verif_extent_acquire`
+    pub fn verif_extent_release(&self) {
+        drop(ExtentReadGuard(&self.extent_state));
+    }
+
+    pub fn verif_extent_retire(&self) {
+        self.retire_extent();
+    }
+
+    pub fn verif_extent_has_readers(&self) -> bool {
+        self.extent_has_readers()
+    }
+
+    pub fn verif_extent_word(&self) -> u32 {
+        self.extent_state.load(Ordering::Acquire)
+    }
+}
+
 impl Drop for Record {
     fn drop(&mut self) {
         let mut successor = self.successor.take();
